@@ -448,7 +448,7 @@ func (g *gen) runTF(s *hx.Stream, ops []tfOp, W int, stable bool, tags ...string
 			jsObs = append(jsObs, fmt.Sprintf("%q cur=%d n=%d cb=%d col=%d", tf.Value, cur, n, len(log), col))
 		}
 	}
-	js := map[string]interface{}{"widget": "textfield", "draw_width": W, "stable": stable, "ops": jsOps}
+	js := map[string]interface{}{"widget": "textfield", "draw_width": W, "stable": stable, "ops": jsOps, "gen": strings.Join(tags, ",")}
 	if p, msg := hx.Catch(run); p {
 		js["panic"] = msg
 		js["ops"] = jsOps
@@ -937,7 +937,7 @@ func (g *gen) runTI(s *hx.Stream, prompt string, ops []tiOp, stable bool, tags .
 			}
 		}
 	}
-	js := map[string]interface{}{"widget": "textinput", "prompt": prompt, "stable": stable, "ops": jsOps, "observed": jsObs}
+	js := map[string]interface{}{"widget": "textinput", "prompt": prompt, "stable": stable, "ops": jsOps, "observed": jsObs, "gen": strings.Join(tags, ",")}
 	s.Add(hx.Tuple(coqCls(chars(prompt)), hx.ZList(al), hx.Bool(stable), hx.List(steps)), js, nontrivial, tags...)
 }
 
@@ -1264,7 +1264,9 @@ func (g *gen) tiStream() (*hx.Stream, *hx.Stream) {
 	starts := [][]tiOp{
 		{{kind: "setcontent", s: "ab \u4e16-1"}, {kind: "left"}, {kind: "left"}, {kind: "left"}},
 		{},
-		{{kind: "setcontent", s: "\U0001F469\u200d\U0001F467 x"}},
+		// a ZWJ sequence (first code point not a letter) and multi-code-point clusters whose FIRST
+		// code point is a letter, next to a word and on their own: all are separators for the word operations
+		{{kind: "setcontent", s: "\U0001F469\u200d\U0001F467 xe\u0301 e\u0301"}},
 	}
 	core := []tiOp{ex[0], ex[2], ex[3], ex[5], ex[7], ex[8], ex[9], ex[10], ex[13]}
 	type plan struct {
@@ -1386,8 +1388,11 @@ func main() {
 		"hand-written regressions, bounded-exhaustive sequences over a 12/14-operation alphabet from three starting contents, random histories over a boundary-stable cluster alphabet "+
 		"(narrow, wide, combining, ZWJ, flags, modifiers, jamo), Draw at widths 0..150 with several prompts, frame histories on one model (a line that scrolled, the cursor rewound or the field emptied by every "+
 		"operation that can do it, that state drawn or not, material arriving by SetContent / paste / keys with no frame in between, then a frame in which it fits or not; directed and random), "+
+		"programmatic edits and typed / pasted texts whose argument is derived from the text the widget holds at that moment (the same text, a prefix, a suffix, the text extended / prepended / doubled, "+
+		"the same line in the other normalisation form, another last cluster; from the current text or from the last non-empty one after Reset / Enter / emptying the field) after cursor motions and mid-line deletions, "+
+		"for SetContent, InsertStringAtCursor, key events and bracketed pastes on both widgets (directed over 5 lines x 9 motions, and inside every random history), "+
 		"and histories over a NOT boundary-stable alphabet (model-vs-code only); "+
-		"non-trivial = a deletion/word operation/paste that changed the text or cursor, an insertion before the end (TextField), or a Draw that scrolled",
+		"non-trivial = a deletion/word operation/paste that changed the text or cursor, an insertion before the end (TextField), a derived SetContent with the cursor off the end, or a Draw that scrolled",
 		streams, extra, g.direct)
 	if g.hangs == 0 {
 		hx.WithTimeout(2*time.Second, vx.Close)
